@@ -11,6 +11,8 @@
 //!              find a server and deliver the compiler's true result
 //!   poison   one fresh real server; well-formed but unservable compile requests (real client or hand-built
 //!            frame) followed by ordinary requests for the same compiler from other connections
+//!   bigout   a real server with a small frame limit; the compiler's output is just below / at / above what fits into
+//!            one CompileFinished frame; the client must deliver the status with the complete output either way
 //!   vanish   a DAEMONISED real server (started by `sccache --start-server`, pid found through /proc); a peer sends a
 //!            complete well-formed Compile request and then closes / resets / half-closes, before or after the
 //!            acknowledgement, while a bystander's compile is in flight; the same server process must survive
@@ -318,7 +320,7 @@ fn write_wrapper(dir: &Path) -> PathBuf {
     write_exec(
         &w,
         &format!(
-            "#!/bin/sh\nD='{d}'\nif [ -n \"$C11_FAIL\" ]; then echo 'wrapper: told to fail' >&2; exit 1; fi\nhas_e=0\nhas_src=0\nfor a in \"$@\"; do\n  case \"$a\" in\n    -E) has_e=1 ;;\n    *unit.c) has_src=1 ;;\n  esac\ndone\nphase=other\nif [ $has_e = 1 ] && [ $has_src = 0 ]; then phase=detect; fi\nif [ $has_e = 1 ] && [ $has_src = 1 ]; then phase=preprocess; fi\nif [ $has_e = 0 ] && [ $has_src = 1 ]; then phase=compile; fi\nT=\"${{C11_TAG:-x}}\"\necho \"$phase $PPID\" >> \"$D/phases.log\"\nif mv \"$D/arm-$phase-$T\" \"$D/fired-$phase-$T\" 2>/dev/null; then\n  echo \"$$\" > \"$D/fifo\"\n  exec sleep 600\nfi\nif mv \"$D/hold-$phase-$T\" \"$D/held-$phase-$T\" 2>/dev/null; then\n  echo \"$$\" > \"$D/fifo\"\n  read _ < \"$D/release-$T\"\nfi\nexec /usr/bin/gcc \"$@\"\n",
+            "#!/bin/sh\nD='{d}'\nif [ -n \"$C11_FAIL\" ]; then echo 'wrapper: told to fail' >&2; exit 1; fi\nhas_e=0\nhas_src=0\nfor a in \"$@\"; do\n  case \"$a\" in\n    -E) has_e=1 ;;\n    *unit.c) has_src=1 ;;\n  esac\ndone\nphase=other\nif [ $has_e = 1 ] && [ $has_src = 0 ]; then phase=detect; fi\nif [ $has_e = 1 ] && [ $has_src = 1 ]; then phase=preprocess; fi\nif [ $has_e = 0 ] && [ $has_src = 1 ]; then phase=compile; fi\nT=\"${{C11_TAG:-x}}\"\necho \"$phase $PPID\" >> \"$D/phases.log\"\nif [ -n \"$C11_NOISE\" ] && [ $phase = compile ]; then\n  head -c \"$C11_NOISE\" /dev/zero | tr '\\0' 'w' >&2\n  printf '\\n%s\\n' \"$C11_LAST\" >&2\n  if [ -n \"$C11_EXIT\" ]; then exit \"$C11_EXIT\"; fi\nfi\nif mv \"$D/arm-$phase-$T\" \"$D/fired-$phase-$T\" 2>/dev/null; then\n  echo \"$$\" > \"$D/fifo\"\n  exec sleep 600\nfi\nif mv \"$D/hold-$phase-$T\" \"$D/held-$phase-$T\" 2>/dev/null; then\n  echo \"$$\" > \"$D/fifo\"\n  read _ < \"$D/release-$T\"\nfi\nexec /usr/bin/gcc \"$@\"\n",
             d = dir.display()
         ),
     );
@@ -835,6 +837,8 @@ fn start_class(err: &str) -> &'static str {
     // what connect_or_start_server went through, from the client's own trace output
     if err.contains("Listening on address") {
         "wrong_addr"
+    } else if err.contains("sccache: error") && err.contains(" at path ") {
+        "spawn_err" // run_server_process could not create the start-up rendezvous directory
     } else if err.contains("AddrInUse") || err.contains("Address in use") {
         "addr_in_use"
     } else if err.contains("Timed out waiting for server startup") {
@@ -889,6 +893,7 @@ fn run_coldstart_case(case: &Sx) -> Sx {
     let d = dir.path().to_path_buf();
     let port = free_port();
     let uds = coldstart_uds(&kind, &d);
+    let cenv = coldstart_env(&case.arg(3).str(), &d);
     if after_kill {
         // a server that was there and is gone (SIGKILL): same address, same cache directory; started the way
         // real use starts it, found through /proc, killed by pid
@@ -913,12 +918,49 @@ fn run_coldstart_case(case: &Sx) -> Sx {
             std::thread::sleep(Duration::from_millis(2));
         }
     }
-    coldstart_clients(dir, port, k, uds)
+    coldstart_clients(dir, port, k, uds, cenv)
+}
+
+/// The part of the client's environment that a cold start could depend on: (variable, Some(value) | None = unset).
+/// The first server of an after-kill case is started from a GOOD environment; only the clients under test carry it.
+fn coldstart_env(kind: &str, d: &Path) -> Vec<(&'static str, Option<std::ffi::OsString>)> {
+    let sub = |n: &str| {
+        let p = d.join(n);
+        std::fs::create_dir_all(&p).unwrap();
+        p.into_os_string()
+    };
+    let file = |n: &str| {
+        let p = d.join(n);
+        std::fs::write(&p, "not a directory").unwrap();
+        p.into_os_string()
+    };
+    match kind {
+        "xdg_ok" => vec![("XDG_RUNTIME_DIR", Some(sub("xdg")))],
+        "xdg_stale" => vec![("XDG_RUNTIME_DIR", Some(d.join("run/user/4242").into_os_string()))],
+        "xdg_notdir" => vec![("XDG_RUNTIME_DIR", Some(file("xdgfile")))],
+        "xdg_empty" => vec![("XDG_RUNTIME_DIR", Some("".into()))],
+        "home_unset" => vec![("HOME", None)],
+        "home_stale" => vec![("HOME", Some(d.join("no/such/home").into_os_string()))],
+        "home_notdir" => vec![("HOME", Some(file("homefile")))],
+        "tmpdir_ok" => vec![("TMPDIR", Some(sub("tmp")))],
+        "tmpdir_stale" => vec![("TMPDIR", Some(d.join("no/such/tmp").into_os_string()))],
+        "all_stale" => vec![
+            ("XDG_RUNTIME_DIR", Some(d.join("run/user/4242").into_os_string())),
+            ("HOME", Some(d.join("no/such/home").into_os_string())),
+        ],
+        _ => vec![],
+    }
 }
 
 const DEFAULT_CAP_BYTES: u64 = 8 * 1024 * 1024;
 
-fn coldstart_clients(dir: tempfile::TempDir, port: u16, k: usize, uds: Option<std::ffi::OsString>) -> Sx {
+fn coldstart_clients(
+    dir: tempfile::TempDir,
+    port: u16,
+    k: usize,
+    uds: Option<std::ffi::OsString>,
+    cenv: Vec<(&'static str, Option<std::ffi::OsString>)>,
+) -> Sx {
     let d = dir.path().to_path_buf();
     let ready = d.join("ready");
     let go = d.join("go");
@@ -944,6 +986,12 @@ fn coldstart_clients(dir: tempfile::TempDir, port: u16, k: usize, uds: Option<st
         server_env(&mut c, &d, port, DEFAULT_CAP_BYTES);
         if let Some(u) = &uds {
             c.env("SCCACHE_SERVER_UDS", u);
+        }
+        for (k, v) in &cenv {
+            match v {
+                Some(v) => c.env(k, v),
+                None => c.env_remove(k),
+            };
         }
         c.env("SCCACHE_IDLE_TIMEOUT", "60")
             .current_dir(&work)
@@ -1383,6 +1431,90 @@ fn run_vanish_case(case: &Sx) -> Sx {
     ])
 }
 
+// ------------------------------------------------------------------ leg bigout
+
+/// case ( cap noise status #last ): a real server whose frame limit is `cap`; the compiler writes `noise` bytes of
+/// 'w' and the line `last` to stderr and exits `status` (0: after really compiling).  Whatever the size, the client
+/// must return the compiler's status with the COMPLETE output (relayed, or by compiling locally).
+fn run_bigout_case(live: &mut Option<Live>, counter: &mut u64, case: &Sx) -> Sx {
+    let cap = case.arg(0).u64();
+    let noise = case.arg(1).u64() as usize;
+    let status = case.arg(2).u64();
+    let last = case.arg(3).str();
+    if live.as_ref().map(|l| l.cap != cap).unwrap_or(false) || live.as_mut().map(|l| l.exited()).unwrap_or(false) {
+        if let Some(l) = live.take() {
+            l.stop();
+        }
+    }
+    if live.is_none() {
+        *live = start_server(cap);
+    }
+    let srv = match live.as_mut() {
+        Some(s) => s,
+        None => return Sx::L(vec![Sx::sym("harness_problem"), Sx::sym("server_did_not_start")]),
+    };
+    *counter += 1;
+    let work = srv.dir.path().join(format!("n{}", *counter));
+    let reference = make_unit(&work, 500 + *counter);
+    let mut c = srv.client_cmd(&work);
+    c.env("C11_NOISE", noise.to_string()).env("C11_LAST", &last).env("C11_TAG", "n");
+    if status != 0 {
+        c.env("C11_EXIT", status.to_string());
+    }
+    let mut child = c.spawn().expect("spawn client");
+    let pid = child.id();
+    // drain both pipes while the client runs (the output is larger than a pipe buffer)
+    let mut so = child.stdout.take().unwrap();
+    let mut se = child.stderr.take().unwrap();
+    let t_out = std::thread::spawn(move || {
+        let mut b = vec![];
+        let _ = so.read_to_end(&mut b);
+        b
+    });
+    let t_err = std::thread::spawn(move || {
+        let mut b = vec![];
+        let _ = se.read_to_end(&mut b);
+        b
+    });
+    let code = wait_child(&mut child, FAILSAFE);
+    let _out = t_out.join().unwrap_or_default();
+    let err = t_err.join().unwrap_or_default();
+    let code = match code {
+        Some(c) => c,
+        None => return Sx::L(vec![Sx::sym("client_hung")]),
+    };
+    let log = std::fs::read_to_string(srv.dir.path().join("phases.log")).unwrap_or_default();
+    let ran = log
+        .lines()
+        .filter(|l| l.split(' ').nth(1).and_then(|p| p.parse::<u32>().ok()) == Some(pid))
+        .count();
+    let mut want = vec![b'w'; noise];
+    want.push(b'\n');
+    want.extend_from_slice(last.as_bytes());
+    want.push(b'\n');
+    let complete = err.windows(want.len()).any(|w| w == &want[..]);
+    let nw = err.iter().filter(|&&b| b == b'w').count();
+    let errs = String::from_utf8_lossy(&err);
+    let why = classify_stderr(&errs);
+    let kind = if ran > 0 {
+        "local"
+    } else if errs.contains("sccache: error") {
+        "error"
+    } else {
+        "finished"
+    };
+    let why = if kind == "local" && why == "none" { "unhandled" } else { why };
+    let obj_ok = std::fs::read(work.join("unit.o")).map(|o| o == reference).unwrap_or(false);
+    Sx::L(vec![
+        Sx::sym(kind),
+        Sx::sym(why),
+        Sx::N(code as u32 as u128 & 0xffff),
+        Sx::usize(ran.min(1)),
+        if complete { Sx::sym("complete") } else { Sx::L(vec![Sx::sym("partial"), Sx::usize(nw)]) },
+        Sx::sym(if status == 0 && !obj_ok { "bad_object" } else { "ok" }),
+    ])
+}
+
 fn main() {
     vh::quiet_panics();
     let leg = std::env::args().nth(1).unwrap_or_default();
@@ -1396,6 +1528,8 @@ fn main() {
         "server" => vh::catch(|| run_server_case(&mut live, &mut counter, case))
             .unwrap_or_else(|e| Sx::L(vec![Sx::sym("harness_panic"), Sx::B(e.into_bytes())])),
         "kill" => vh::catch(|| run_kill_case(case))
+            .unwrap_or_else(|e| Sx::L(vec![Sx::sym("harness_panic"), Sx::B(e.into_bytes())])),
+        "bigout" => vh::catch(|| run_bigout_case(&mut live, &mut counter, case))
             .unwrap_or_else(|e| Sx::L(vec![Sx::sym("harness_panic"), Sx::B(e.into_bytes())])),
         "vanish" => vh::catch(|| run_vanish_case(case))
             .unwrap_or_else(|e| Sx::L(vec![Sx::sym("harness_panic"), Sx::B(e.into_bytes())])),
